@@ -141,10 +141,10 @@ def handlerPairs (tkeys : List Bytes) (h : Header) : List (Bytes × Bytes) :=
 /-- the headers eoncodeHead adds on its own -/
 def autoPairs (g : Cfg) (r : R) : List (Bytes × Bytes) :=
   (if r.hasBody && hget r.header kCT == [] then [(kCT, str "text/plain; charset=utf-8")] else []) ++
-  (if !r.chunked && hget r.header kCL == [] then
+  (if !r.chunked && !r.closeDelim && hget r.header kCL == [] then
       [(kCL, if r.hasBody && (match r.bodyBuffer with | some b => b.length | none => 0) > 0
               then fmtDec (match r.bodyBuffer with | some b => b.length | none => 0) else str "0")] else []) ++
-  (if g.reqClose && hget r.header kConn == [] then [(kConn, str "close")] else []) ++
+  (if (g.reqClose || r.closeDelim) && hget r.header kConn == [] then [(kConn, str "close")] else []) ++
   (if hget r.header kDate == [] then [(kDate, datePlaceholder)] else [])
 
 /-- the status line without its CRLF -/
@@ -174,8 +174,8 @@ theorem headBytes_normal (g : Cfg) (r : R) :
   unfold headBytes autoPairs statusLine statusBody
   rw [headerLines_pairs, e1, e2, e3]
   by_cases c1 : (r.hasBody && hget r.header kCT == []) = true <;>
-  by_cases c2 : (!r.chunked && hget r.header kCL == []) = true <;>
-  by_cases c3 : (g.reqClose && hget r.header kConn == []) = true <;>
+  by_cases c2 : (!r.chunked && !r.closeDelim && hget r.header kCL == []) = true <;>
+  by_cases c3 : ((g.reqClose || r.closeDelim) && hget r.header kConn == []) = true <;>
   by_cases c4 : (hget r.header kDate == []) = true <;>
   simp only [c1, c2, c3, c4, ↓reduceIte, Bool.false_eq_true] <;>
   simp [renderPairs, headerLine, CRLF, List.append_assoc] <;>
